@@ -3,7 +3,8 @@
 //! line: `C08 rich=<n> load=<0|1> stores=<0..2> sabot=<0..5> kinds=<bits> pre=<0..5> e=<op,op..>
 //!          => <font description> T=<target> PRE=<tree> R=<result> POST=<tree>`
 //!   kinds bits: 1 version<3 (64: V1 instead of V2), 2 public.objectLibs, 4 groups, 8 fontinfo (validate),
-//!               32 guideline angle 400 (passes validate, refused by the writer)
+//!               32 guideline angle 400, 128 angle NaN, 256 angle -1e-9 (invalid font info in the specification's sense,
+//!               whatever `validate` says)
 //!   sabot (needs load=1): 1 non-PNG image in the source, 2 data file deleted after load, 3 data file replaced
 //!               by a directory after load, 4 image truncated after load, 5 = 1 and the cell already forced
 //!   pre: 0 absent, 1 empty dir, 2 another larger UFO, 3 nested junk, 4 plain file, 5 the font's own source
@@ -277,7 +278,7 @@ pub fn gen(tier: &str, seed: u64, out: &mut dyn Write) {
     let mut rng = Rng::new(seed);
     let reps = if tier == "thorough" { 40 } else { 1 };
     // refused saves: every kind and every pair of kinds x the six pre-states x API-built / loaded fonts
-    let single = [1u32, 1 | 64, 2, 4, 8, 32];
+    let single = [1u32, 1 | 64, 2, 4, 8, 32, 128, 256];
     let mut kindsets: Vec<u32> = single.to_vec();
     for a in 0..single.len() {
         for b in a + 1..single.len() {
